@@ -48,7 +48,8 @@ inductive Act
   | write (f : WFrame)
   | await (m : Msg) (timed : Bool)
   | flush                     -- hasseb: _response_available.clear()
-  | flush1                    -- serial: reset_dali_response() drops one stale backward frame
+  | flush1                    -- LUBA: reset_dali_response() discards every stale backward frame (SCI uses `flush`:
+                              -- it discards the stale information frames, i.e. confirmations, as well)
   | poll                      -- serial: wait for the backward frame up to timeout_rx ("no answer" on timeout)
   | sleep                     -- sequences.sleep
   | resume                    -- seq.send(response): the generator runs to its next yield (may raise)
@@ -168,10 +169,7 @@ def actStep (s : St) (t : Tid) : Option St :=
         | some (m', mail') => if m' = m then some { adv with mail := mail' } else none
         | none => none
       | .flush => some { adv with mail := s.mail.filter (·.1 ≠ 0) }
-      | .flush1 =>
-        match takeMail 0 (· == .answer) s.mail with
-        | some (_, mail') => some { adv with mail := mail' }
-        | none => some adv
+      | .flush1 => some { adv with mail := s.mail.filter (fun p => !(p.1 == 0 && p.2 == Msg.answer)) }
       | .poll =>
         match takeMail 0 (· == .answer) s.mail with
         | some (_, mail') => some { adv with mail := mail' }
